@@ -194,13 +194,17 @@ def total_items(d):
 
 
 def fix_open_arrays(d, top=True):
-    """open-length arrays only at top level"""
+    """open-length arrays only at top level; the whole type stays far below the size cffi refuses
+    ("array size would overflow a Py_ssize_t")"""
     k = d[0]
     if k == 'arr':
         n = d[2]
         if n is None and not top:
             n = 3
-        return ['arr', fix_open_arrays(d[1], False), n]
+        inner = fix_open_arrays(d[1], False)
+        if isinstance(n, int) and n > 1 and total_items(inner) * n >= 2 ** 56:
+            n = 3
+        return ['arr', inner, n]
     if k == 'ptr':
         return ['ptr', fix_open_arrays(d[1], False)]
     if k == 'func':
